@@ -402,7 +402,10 @@ class TrajectoryCalc:
                                         "filter_flags": filter_flags, "time_step": time_step, "min_step": min_step,
                                         "range_vector": range_vector, "velocity_vector": velocity_vector,
                                         "data_filter": data_filter, "wind_sock": wind_sock})
-        while range_vector.x <= maximum_range + min_step:
+        # keep going while a requested record distance within the range is still owed: with a tail wind the ground
+        # advance of one step exceeds min_step and the loop bound alone can jump past the last record distance
+        while (range_vector.x <= maximum_range + min_step
+               or (filter_flags and record_step > 0 and data_filter.next_record_distance <= maximum_range)):
             it += 1
             data_filter.clear_current_flag()
             if _verif_sink is not None:
